@@ -222,6 +222,8 @@ def l1_reentrancy(P, E, H, UR=None, c01_holds=True):
                 acq_index[ident].append((b, bb, a["mode"]))
     pub_reach = _reenterable_methods(P)
     for b in P.bodies.values():
+        if b.id in P.absorbed:
+            continue      # helpers / directly called closures are analysed inlined into their callers
         acqs, held, _ = b.guards()
         if not acqs:
             continue
@@ -260,11 +262,11 @@ def l1_reentrancy(P, E, H, UR=None, c01_holds=True):
                     continue
                 via = "across " + ("operator function" if atom(c) == "fw_call" else "emission")
                 sname = H.stable_name(b)
-                if (sname, cname, via) in L1_EXEMPT:
+                if (sname, via) in L1_EXEMPT:
                     continue
-                if any(v.key == (sname, cname, via) for v in r.violations):
+                if any(v.key == (sname, via) for v in r.violations):
                     continue
-                r.violate((sname, cname, via),
+                r.violate((sname, via),
                           "%s guard of `%s` is held across %s, which reaches user code; re-entering the library "
                           "from that code reaches a conflicting acquisition of the same cell in %s: the thread "
                           "blocks on a lock it holds itself"
@@ -288,7 +290,7 @@ L1_EXEMPT = {
     # the count cannot reach 0 during connect; the demonstration attempt
     # (from_iter(0..3).replay().observable().take(1)) returns.  ref_count (plain Subject) is NOT
     # exempt: there the same shape deadlocks.
-    ("operators::replay::Replay::set_ref_count/COUNT_UP", "upvar:subscription", "across emission"),
+    ("operators::replay::Replay::set_ref_count/COUNT_UP", "across emission"),
 }
 
 
@@ -366,10 +368,13 @@ def _l1_terminal_exempt(P, E, H, holder, conflicts):
 
 
 def _inline_reach(P, E, b):
+    """bodies run synchronously by b (computed on the un-inlined bodies: with inlined views the
+    calls to local closures are already spliced into b)."""
     out = set()
-    st = [b]
+    st = [P.orig.get(b.id, b)]
     while st:
         x = st.pop()
+        x = P.orig.get(x.id, x)
         for c in x.calls:
             if atom(c) in STORED_ATOMS or atom(c) == "post":
                 continue
@@ -382,7 +387,7 @@ def _inline_reach(P, E, b):
 
 def _callers(P, E, ob):
     out = set()
-    for x in P.bodies.values():
+    for x in P.orig.values():
         for c in x.calls:
             if atom(c) in STORED_ATOMS:
                 continue
@@ -411,6 +416,8 @@ def l2_leaf_locks(P, E, UR=None):
     acquires = _acquires_summary(P, E, UR)
     n = 0
     for b in P.bodies.values():
+        if b.id in P.absorbed:
+            continue
         acqs, held, _ = b.guards()
         for c in b.calls:
             for a in held.get(c.bb, set()):
@@ -476,65 +483,78 @@ def _acquires_summary(P, E, UR):
 EMIT_ATOMS = ("obs_next", "sink_next")
 
 
+BOUNDED_ITERS = ("std::slice::Iter", "std::slice::IterMut", "std::vec::IntoIter", "std::collections::vec_deque::",
+                 "std::collections::hash_map::", "std::collections::btree_map::", "std::option::",
+                 "std::iter::Cloned<std::slice::Iter", "std::iter::Rev<std::slice::Iter")
+
+
+def _loop_is_bounded_fanout(b, cyc, emit_call):
+    """The cycle is driven by an iterator over an in-memory collection (bounded), or the
+    emission target changes per iteration (fan-out over observers, not a producer)."""
+    nexts = [c for c in b.calls if c.bb in cyc and c.path == "std::iter::Iterator::next"]
+    if nexts and all(any((c.targs[0].get("s", "") if c.targs else "").startswith(p) or
+                         ("<" + p) in (c.targs[0].get("s", "") if c.targs else "") for p in BOUNDED_ITERS) for c in nexts):
+        return True
+    # fan-out: the receiver of the emission derives from the element the iterator yielded
+    for n_ in nexts:
+        for t in b.operand_prov(emit_call.args[0]):
+            if any(t2[:2] == ("ret", n_.bb) or (t2[0] == t[0] and t2[1] == t[1] and "[]" in t[2]) for t2 in b.operand_prov(n_.args[0])) \
+                    or (t[0] == "ret" and t[1] == n_.bb):
+                return True
+    return False
+
+
 def l4_producer_polling(P, E):
-    r = RuleResult("L4", "every loop that emits directly (Observer::next / sink_next) polls is_subscribed() "
-                         "and leaves the loop on its false edge")
+    r = RuleResult("L4", "every potentially unbounded loop that emits to one observer (Observer::next / sink_next) polls "
+                         "is_subscribed() and leaves the loop on its false edge")
     n = 0
     for b in P.bodies.values():
+        if b.id in P.absorbed:
+            continue
         if b.nid.startswith(SCTL + "::") or b.nid.startswith(OBSERVER + "::"):
             continue
         emit_blocks = []
         for c in b.calls:
             if atom(c) in EMIT_ATOMS and b.in_cycle(c.bb):
                 emit_blocks.append(c)
-            elif c.path in ("std::iter::Iterator::for_each",) and not b.nid.startswith("subjects::"):
-                # eager iteration running an emitting closure = a loop in the closure's caller
-                for t in E.inline_targets(c):
-                    if t.kind == "closure" and any(atom(x) in EMIT_ATOMS for x in t.calls):
-                        r.instance((b.nid, "for_each emit"), True, "emitting for_each closure %s" % t.nid)
-                        n += 1
-                        polls = [x for x in t.calls if atom(x) == "is_subscribed"]
-                        if not polls:
-                            r.violate((b.nid, "emitting for_each without poll"),
-                                      "items are emitted from an iterator closure that never consults is_subscribed()",
-                                      body=b, line=c.line)
         for c in emit_blocks:
-            n += 1
-            # the cycle through c: blocks reachable from c that reach c
             fwd = b.reachable_from(c.bb)
             cyc = {x for x in fwd if c.bb in b.reachable_from(x)} | {c.bb}
+            if _loop_is_bounded_fanout(b, cyc, c):
+                r.instance((b.nid, "bounded/fan-out loop"), False, "emit at bb%d" % c.bb)
+                continue
+            n += 1
             polls = [x for x in b.calls if x.bb in cyc and atom(x) == "is_subscribed"]
             ok = False
             for p in polls:
-                # the branch consuming the poll has an edge leaving the cycle
-                tb = p.target
-                hops = 0
-                while tb is not None and b.blocks[tb]["term"]["k"] not in ("switch",) and hops < 4:
+                for tb in sorted(cyc):
                     t = b.blocks[tb]["term"]
-                    if t["k"] in ("goto", "drop", "falseedge", "assert"):
-                        tb = t["target"]
-                    elif t["k"] == "call" and b.call_at(tb) is not None and b.call_at(tb).path == "std::ops::Not::not":
-                        tb = t["target"]
-                    else:
-                        break
-                    hops += 1
-                if tb is None:
-                    continue
-                t = b.blocks[tb]["term"]
-                if t["k"] != "switch":
-                    continue
-                succs = [x for _, x in t["targets"]] + [t["otherwise"]]
-                for s in succs:
-                    if not _stays_in_cycle(b, s, cyc, c.bb):
+                    if t["k"] != "switch" or t["discr"]["k"] not in ("copy", "move"):
+                        continue
+                    dp = b.operand_prov(t["discr"])
+                    if not any(rk == "ret" and rd == p.bb for (rk, rd, _) in dp) and not _via_not(b, t["discr"], p):
+                        continue
+                    succs = [x for _, x in t["targets"]] + [t["otherwise"]]
+                    if any(s_ not in cyc for s_ in succs):
                         ok = True
             r.instance((b.nid, "emit loop"), True, "emit at bb%d in cycle of %d blocks, polls %s" % (c.bb, len(cyc), [p.bb for p in polls]))
             if not ok:
                 r.violate((b.nid, "emitting loop without is_subscribed poll"),
-                          "a loop emits items without polling is_subscribed() (or the poll cannot leave the loop): "
-                          "the producer spins on a subscription that has ended", body=b, line=c.line)
-    if n < 5:
-        r.error("only %d emitting loops found (floor 5)" % n)
+                          "a potentially unbounded loop emits items without polling is_subscribed() (or the poll cannot leave "
+                          "the loop): the producer spins on a subscription that has ended", body=b, line=c.line)
+    if n < 4:
+        r.error("only %d unbounded emitting loops found (floor 4)" % n)
     return r
+
+
+def _via_not(b, discr, poll):
+    """discr = !poll_result (a `Not` of the poll's destination)"""
+    l = discr["p"][0]
+    for d in b.defs.get(l, []):
+        if d[0] == "assign" and d[1]["rv"]["k"] == "unop" and d[1]["rv"]["op"] == "Not":
+            if any(rk == "ret" and rd == poll.bb for (rk, rd, _) in b.operand_prov(d[1]["rv"]["a"])):
+                return True
+    return False
 
 
 def _stays_in_cycle(b, s, cyc, emit_bb):
